@@ -7,6 +7,8 @@ use std::env;
 use std::fs;
 use std::path::PathBuf;
 
+mod gck_build; // C03: src/gck_build.rs generates $OUT_DIR/gck_gen.rs (collector kernels cut out of the working tree)
+
 fn strip_comments(src: &str) -> String {
     src.lines().map(|l| match l.find("//") { Some(i) => &l[..i], None => l }).collect::<Vec<_>>().join("\n")
 }
@@ -65,6 +67,7 @@ fn sigs(src: &str, prefix: &str, need_pub: bool) -> Vec<(String, Vec<(String, St
 fn main() {
     let manifest = PathBuf::from(env::var("CARGO_MANIFEST_DIR").unwrap()).join("Cargo.toml");
     let toml = fs::read_to_string(&manifest).unwrap();
+    gck_build::generate(&toml, &PathBuf::from(env::var("OUT_DIR").unwrap()));
     let key = "dora-bytecode = { path = \"";
     let i = toml.find(key).expect("dora-bytecode path dependency");
     let rest = &toml[i + key.len()..];
